@@ -76,3 +76,10 @@ static inline void cstring__push_back(cstring *s, char c)
   if (s->len == g_Ws) s->wch = (unsigned char)c;
   s->len++;
 }
+static inline void cstring__append(cstring *s, char *p, unsigned long n)
+{
+  if (g_exc) return;
+  __CPROVER_assert(__CPROVER_r_ok(p, n), "string.append: source range readable");
+  if (g_Ws >= s->len && g_Ws - s->len < n) s->wch = (unsigned char)p[g_Ws - s->len];
+  s->len += n;
+}
